@@ -146,6 +146,7 @@ class PoolRec:
         self.closed_checked = False
         self.sreq = None
         self.group_cancels = 0
+        self.stop_calls = 0
         self.size_set_iter = -10
         self.A = 0  # tasks admitted (created) and not finished / cancelled-before-start
 
